@@ -480,6 +480,9 @@ func searchGrid(c *Ctx) []searchSeg {
 		{N: 13, Big: "maxdeg2"}, {N: 14, Big: "maxdeg1"}, {N: 18, Big: "maxdeg1"}, {N: 19, Big: "maxdeg1"},
 		// cells of more than 20 vertices (merge phase of the refinement sort): at most 3 edges on 21 / 22 vertices, 9 classes
 		{N: 21, Big: "maxedges3"}, {N: 22, Big: "maxedges3"},
+		// complete multipartite graphs (as many as partitions of n): the edgeless graph and other highly symmetric graphs are labelled through
+		// storage that larger and smaller graphs used before
+		{N: 7, Big: "cmulti"}, {N: 8, Big: "cmulti"}, {N: 9, Big: "cmulti"}, {N: 10, Big: "cmulti"}, {N: 7, Big: "cograph"}, {N: 7, Big: "alpha2"},
 		// the whole unpruned search on 9 and 10 vertices, counted (a parent is canonical-deleted through deep orbit forests only from n = 10 on)
 		{N: 9, Big: "count", M: 5}, {N: 10, Big: "count", M: 16}}
 	if c.Thorough() {
